@@ -4,7 +4,7 @@ import os, re
 HERE = os.path.dirname(os.path.dirname(os.path.abspath(__file__)))
 d = open(os.path.join(HERE, "DESIGN.md")).read()
 i = d.index("### 11.7 ")
-j = d.index("\n## Appendix A", i)
+j = d.index("\n### 11.8 ", i) if "\n### 11.8 " in d[i:] else d.index("\n## Appendix A", i)
 rows = [l for l in open(os.path.join(HERE, "seeded/RESULTS.md")) if l.startswith("| C")]
 ben = [l for l in open(os.path.join(HERE, "seeded/benign/RESULTS.md")) if re.match(r"^\| [ABCN]\d", l)]
 det = sum(1 for l in rows if "MISSED" not in l and "INFRA" not in l and "DOES-NOT" not in l)
@@ -55,6 +55,6 @@ seeded change C15-2, which fix a4b2d86 neutralised (its demonstration passes on 
 
 | refactor | checks run |
 |---|---|
-%s""" % (det, len(rows), "".join(rows), "".join(ben))
+%s""" % (det, len(rows), "".join(rows), "".join(ben) + "\n")
 open(os.path.join(HERE, "DESIGN.md"), "w").write(d[:i] + body + d[j:])
 print("filled:", det, "/", len(rows), "detected;", len(ben), "benign")
